@@ -1,4 +1,6 @@
+import contextlib
 import json
+import os
 from collections import OrderedDict
 
 
@@ -14,8 +16,16 @@ def table_to_serializable(table):
 
 
 def save_table(file_name, table):
-    with open(file_name, "w") as f:
-        json.dump(table_to_serializable(table), f, sort_keys=True)
+    # Write to a temporary file first and then atomically replace the target
+    # to prevent partially written table files.
+    tmp_file_name = f"{file_name}.{os.getpid()}.tmp"
+    try:
+        with open(tmp_file_name, "w") as f:
+            json.dump(table_to_serializable(table), f, sort_keys=True)
+        os.replace(tmp_file_name, file_name)
+    finally:
+        with contextlib.suppress(OSError):
+            os.remove(tmp_file_name)
 
 
 def table_from_serializable(serialized_states, grammar):
